@@ -143,6 +143,8 @@ def reference_stream(rng, n_docs, n_parts):
     more = []
     for t in texts:
         more += g.mutants(t, 1)
+    for t in texts[n_docs:]:
+        more += g.punct_deletions(t, 8)
     texts = [t for t in texts + more if "\x00" not in t and t]
     impl = lib.run_lines(lib.build_harness(), [lib.req("accept", t) for t in texts], timeout=900, per_line_resume=True)
     ref = lib.run_lines(lib.model_driver(), [lib.req("accept", "ref", t) for t in texts], timeout=900, per_line_resume=True)
